@@ -2941,6 +2941,12 @@ class SequenceAndSetBase(base.ConstructedAsn1Type):
         """
         scope += 1
         representation = self.__class__.__name__ + ':\n'
+
+        if self._componentValues is noValue:
+            # nothing to show (a record without declared components
+            # has no slots before the first one is set)
+            return representation
+
         for idx, componentValue in enumerate(self._componentValues):
             if componentValue is not noValue and componentValue.isValue:
                 representation += ' ' * scope
